@@ -387,7 +387,10 @@ func (env *TravEnv) Run(ctl TravCtl, matching bool) ([]TravEvent, string) {
 
 // ---------------------------------------------------------------------------- generators
 
-var TravKeys = []string{"a", "b", "c", "x", "0", "1", "2", "01", "+1", "-1", "", "a/b", "é"}
+// the last entries are not valid UTF-8: a lone 0xff, latin-1 "café", a multi-byte sequence cut short,
+// and an invalid byte in the middle (Go strings, map keys and path segments are byte strings)
+var TravKeys = []string{"a", "b", "c", "x", "0", "1", "2", "01", "+1", "-1", "", "a/b", "é",
+	"\xff", "caf\xe9", "\xe2\x82", "a\xffb", "€\xe2"}
 var travStrs = []string{"", "a", "hello", "hello world", "é€x", "0123456789", "\xff\xfe", "/"}
 
 type TravGen struct {
